@@ -311,12 +311,36 @@ extern "C" int LLVMFuzzerInitialize(int *, char ***)
     for(size_t k = 0; k < fz_prop->checks.size(); ++k)
       for(int i = 0; i < 96; ++i)
         {
-        int64_t v[3] = { L[r.below(L.size())], (i & 1) ? L[r.below(L.size())] : r.range(-70, 400), (i & 3) == 3 ? L[r.below(L.size())] : (int64_t)r.below(8) };
+        int64_t v[3] = { L[r.below(L.size())], (i & 1) ? L[r.below(L.size())] : r.range(-70, 400), (i & 3) == 3 ? L[r.below(L.size())] : ((i & 4) ? (int64_t)r.below(8) : (int64_t)r.below(512)) };
         unsigned char buf[25]; buf[0] = (unsigned char)k; memcpy(buf + 1, v, 24);
         std::string fn = std::string(sd) + "/seed" + std::to_string(n++); FILE * f = fopen(fn.c_str(), "wb"); if(f) { fwrite(buf, 1, 25, f); fclose(f); }
         }
     }
   return 0;
+  }
+// Domain-aware mutation on top of libFuzzer's own: after the default mutation, sometimes snap one argument to an extreme
+// residue of a period the library reduces by (phi, 2*phi, 360 degrees, one integer unit). Range reductions that replace
+// the modulo by a reciprocal multiplication fail first at residues 0 / P-1 of large multiples; coverage feedback can lead
+// the fuzzer to the multiple, only a snap lands on the residue.
+extern "C" size_t LLVMFuzzerMutate(uint8_t * data, size_t size, size_t max_size);
+extern "C" size_t LLVMFuzzerCustomMutator(uint8_t * data, size_t size, size_t max_size, unsigned int seed)
+  {
+  size = LLVMFuzzerMutate(data, size, max_size);
+  if(size < 25 || max_size < 25) return size;
+  Rng r; r.seed(seed, 99);
+  if(r.below(4) != 0) return size;
+  int field = (int)r.below(2);                       // a or b
+  int64_t x; memcpy(&x, data + 1 + 8 * field, 8);
+  static const int64_t periods[] = { PHI, TWO_PHI, 360, 65536, 360 * 65536, PHI2 };
+  int64_t P = periods[r.below(6)];
+  if(x == INT64_MIN) return size;
+  int64_t ax = x < 0 ? -x : x, q = ax / P;
+  static const int64_t offs[] = { 0, 1, 2, -1, -2 };
+  int64_t res; switch(r.below(4)) { case 0: res = offs[r.below(5)]; break; case 1: res = P / 2 + offs[r.below(5)]; break; case 2: res = P - 1 - (int64_t)r.below(3); break; default: res = PHI2 % P; }
+  i128 nx = (i128)q * P + res; if(nx > RAW_MAX || nx < 0) return size;
+  x = x < 0 ? -(int64_t)nx : (int64_t)nx;
+  memcpy(data + 1 + 8 * field, &x, 8);
+  return size;
   }
 extern "C" int LLVMFuzzerTestOneInput(const uint8_t * d, size_t n)
   {
